@@ -823,6 +823,7 @@ class Session:
         self.all_viols = []
         self.cache_seen = {}
         self.cur_kw = {}
+        self.unprintable = None
 
     # -- environment ---------------------------------------------------- #
 
@@ -979,10 +980,17 @@ class Session:
         if out[0] == "exc":
             return ("exc", type(out[1]).__name__)
         v = out[1]
+        def pr(x):
+            try:
+                return str(x)
+            except Exception as e:  # the printer (yapf) rejects the text: malformed procedure
+                self.unprintable = f"{type(e).__name__}: {str(e)[:160]}"
+                return f"<unprintable {type(e).__name__}>"
+
         if isinstance(v, Procedure):
-            return ("proc", str(v))
+            return ("proc", pr(v))
         if isinstance(v, tuple):
-            return ("tuple",) + tuple(str(x) for x in v)
+            return ("tuple",) + tuple(pr(x) for x in v)
         return ("val", str(v)[:200])
 
     def apply(self, rec):
@@ -1021,7 +1029,10 @@ class Session:
                 out = ("exc", e)
         else:
             out = self.faulted(name, call, fault, pid)
+        self.unprintable = None
         sig = self.outcome_sig(out)
+        if self.unprintable and out[0] == "ret":
+            self.violate("C04", "unprintable-procedure", f"{name} returned a procedure that cannot be printed: {self.unprintable}", name)
         self.log.log("op", op=name, on=pid, o=sig[0], h=stable_hash(*sig[1:]) if sig[0] != "exc" else sig[1])
         st = self.ops.setdefault(name, [0, 0])
         st[0 if out[0] == "ret" else 1] += 1
@@ -1091,7 +1102,8 @@ class Session:
             elif name in ("delete_config", "write_config", "bind_config"):
                 has = any(
                     isinstance(st, LoopIR.Call) and any(isinstance(e, LoopIR.ReadConfig) for e in st.args)
-                    for _, st in stmt_paths(self.procs[pid_in]._loopir_proc)
+                    for q in (pid_in, pid_out)
+                    for _, st in stmt_paths(self.procs[q]._loopir_proc)
                 )
                 extra = {"pred": "config-field-passed-as-call-argument" if has else ""}
             elif name in ("fission", "autofission"):
